@@ -258,7 +258,7 @@ fn default_pair(c: Cont, alt: bool) -> (TileFormat, TileCompression) {
 pub fn run(ctx: Arc<Ctx>) {
 	ctx.rule(
 		"tile sets: BFS from the empty set by 'add (coordinate, payload)' over 14 coordinates x 5 payloads (canonical form = sorted map) to depth 2 (quick) / 3 (thorough; file-based targets depth 2), \
-		 x 5 target formats x two (format, compression) pairs; every accepted (format, compression) pair x representative sets; named families (dense 130x130 at z=8 -> PMTiles leaf directories, full z0..4 pyramid, 70/100 KiB payloads, level-31 corners, PMTiles root/leaf switch sweep). \
+		 x 5 target formats x two (format, compression) pairs; every accepted (format, compression) pair x representative sets; named families (dense 130x130 at z=8 -> PMTiles leaf directories, full z0..4 pyramid, 70/100 KiB payloads, level-31 corners, PMTiles root/leaf switch sweep + counts k*4096-1..+2 for k=1..5, diamond-shaped sparse levels). \
 		 oracle: repository reader lookups + streams = independent decoder = source mapping. non-trivial = distinct tile sets spanning >= 2 blocks of a level, with duplicate payloads, payloads on both sides of 1000 bytes, or a zoom gap",
 	);
 	ctx.assume("compression libraries (flate2, brotli) and SQLite are the trusted base shared with the repository; the independent decoders are cross-validated against the repository's writers on this very space");
@@ -354,6 +354,16 @@ pub fn run(ctx: Arc<Ctx>) {
 		dups.insert((7, x, 3), tilesets::payload_alphabet()[(x % 3) as usize + 1].clone());
 	}
 	fams.push(("40 tiles drawn from three 999/999/1000-byte payloads (de-duplication)".into(), dups, all.clone()));
+	// sparse levels whose extreme rows / columns occur only in inner columns / rows (coverage derived from stored tiles)
+	let mut diamond = TileMap::new();
+	for (x, y) in [(2u32, 7u32), (3, 6), (3, 8), (4, 3), (4, 7), (5, 12), (6, 7), (7, 6), (8, 7), (9, 7), (10, 7)] {
+		diamond.insert((4, x, y), format!("d {x} {y}").into_bytes());
+	}
+	for (x, y) in [(100u32, 50u32), (101, 20), (102, 50), (103, 90), (104, 50), (180, 50)] {
+		diamond.insert((8, x, y), format!("e {x} {y}").into_bytes());
+	}
+	diamond.insert((2, 1, 1), b"z2".to_vec());
+	fams.push(("diamond-shaped sparse levels (extreme rows only in inner columns), zoom gap".into(), diamond, all.clone()));
 	let famr = &fams;
 	let jobs: Vec<(usize, Cont)> = fams.iter().enumerate().flat_map(|(i, f)| f.2.iter().map(move |c| (i, *c))).collect();
 	let jr = &jobs;
@@ -421,7 +431,18 @@ fn pm_switch_sweep(ctx: &Arc<Ctx>, work: &Path) {
 		}
 		let switch = hi;
 		let window = ctxr.tier.pick(48usize, 400usize);
-		let ns: Vec<usize> = (switch.saturating_sub(window)..=switch + 4).collect();
+		let mut ns: Vec<usize> = (switch.saturating_sub(window)..=switch + 4).collect();
+		// counts around whole multiples of the writer's leaf size (4096 entries), where the last leaf is short / full / one entry
+		for k in 1..=5usize {
+			for d in [-1i64, 0, 1, 2] {
+				let n = (k as i64 * 4096 + d) as usize;
+				if n >= switch {
+					ns.push(n);
+				}
+			}
+		}
+		ns.sort();
+		ns.dedup();
 		let nsr = &ns;
 		par_for(ns.len(), |i| {
 			let n = nsr[i];
